@@ -281,8 +281,8 @@ Lemma next_params_top cfg c rest hs x :
   next_params cfg {| s_info := c :: rest; s_hist := hs |} = next_of_row cfg c.
 Proof.
   intros H P. unfold next_params. rewrite (last_sent_top c rest hs H).
-  unfold next_height_ler, next_of_row, last_sent_block, is_closed. rewrite P.
-  destruct (r_status c); reflexivity.
+  unfold next_height_ler, next_of_row, last_sent_block, is_closed, retry_from_mismatch. rewrite P.
+  destruct (r_status c) eqn:S; cbn [is_in_error is_open is_settled negb andb]; reflexivity.
 Qed.
 
 Lemma next_of_row_agree cfg a b : row_agree a b -> next_of_row cfg a = next_of_row cfg b.
@@ -459,9 +459,10 @@ Lemma sent_height cfg t rest hs h x f :
   next_params cfg {| s_info := t :: rest; s_hist := hs |} = Ok (h, x, f) ->
   (r_status t = Settled /\ h = r_height t + 1) \/ (r_status t = InError /\ h = r_height t).
 Proof.
-  intros B. unfold next_params. rewrite (last_sent_top t rest hs B). unfold next_height_ler, is_closed.
-  destruct (r_status t) eqn:S; cbn [is_open negb is_settled is_in_error]; try discriminate.
+  intros B. unfold next_params. rewrite (last_sent_top t rest hs B). unfold next_height_ler, is_closed, retry_from_mismatch.
+  destruct (r_status t) eqn:S; cbn [is_open negb is_settled is_in_error andb]; try discriminate.
   - intros H. right. split; [reflexivity|].
+    match type of H with (if ?b then _ else _) = _ => destruct b end; [discriminate|].
     destruct (r_prev_ler t); [inversion H; reflexivity|].
     destruct (r_height t =? 0) eqn:Z; [apply N.eqb_eq in Z; inversion H; congruence|].
     match type of H with context [find_height ?a ?b] => destruct (find_height a b) as [q|] end; [|discriminate].
@@ -888,14 +889,28 @@ Qed.
 (* After a lost database, an InError certificate at height > 0 whose header does not report prev_local_exit_root is
    rebuilt without it; the flow then looks for the row at height-1, finds none and builds nothing: safe, not live. *)
 Lemma lost_db_inerror_without_prev_ler_l cfg l r' hs :
-  row_of_header l = Ok r' -> h_status l = InError -> h_prev_ler l = None -> 0 < h_height l ->
+  row_of_header l = Ok r' -> h_status l = InError -> h_prev_ler l = None -> 0 < h_height l -> 0 < r_from r' ->
   next_params cfg {| s_info := [norm_row r']; s_hist := hs |} = Err ENoPrevSettled.
 Proof.
-  intros R S P H. destruct (row_of_header_fields l r' R) as (Fh & _ & Fs & Fp & _).
-  unfold next_params, last_sent, last_sent_l, next_height_ler, is_closed. cbn [s_info fold_left norm_row r_status r_prev_ler r_height].
-  rewrite Fs, S, Fp, P, Fh. cbn [is_open negb is_settled is_in_error].
+  intros R S P H Hf. destruct (row_of_header_fields l r' R) as (Fh & _ & Fs & Fp & _).
+  unfold next_params, last_sent, last_sent_l, next_height_ler, is_closed, retry_from_mismatch, last_sent_block.
+  cbn [s_info fold_left norm_row r_status r_prev_ler r_height r_from r_to].
+  rewrite Fs, S, Fp, P, Fh. cbn [is_open negb is_settled is_in_error andb].
+  destruct (N.ltb_spec 0 (r_from r')); [|lia].
+  replace (r_from r' - 1 + 1) with (r_from r') by lia. rewrite N.eqb_refl. cbn [negb].
   destruct (N.eqb_spec (h_height l) 0); [lia|].
   unfold find_height. cbn [find r_height norm_row]. rewrite Fh. destruct (N.eqb_spec (h_height l) (h_height l - 1)); [lia | reflexivity].
+Qed.
+
+(* version-0 metadata: the rebuilt row has from_block 0; when such a row is InError the retry check of VerifyBuildParams
+   refuses to build (the retry would start after the failed certificate's last block): safe, not live *)
+Lemma inerror_from_zero_nothing_built_l cfg c rest hs :
+  Forall (below c) rest -> r_status c = InError -> r_from c = 0 ->
+  next_params cfg {| s_info := c :: rest; s_hist := hs |} = Err ERetryFromMismatch.
+Proof.
+  intros B S F. unfold next_params. rewrite (last_sent_top c rest hs B).
+  unfold retry_from_mismatch, last_sent_block. rewrite S, F. cbn [is_in_error andb].
+  destruct (N.ltb_spec 0 0); [lia|]. destruct (N.eqb_spec (r_to c + 1) 0); [lia|]. reflexivity.
 Qed.
 
 (* ------------------------------------------------------------------------------------------ *)
